@@ -16,3 +16,9 @@ iora_optstr Assets_readFile(const iora_path *p);
 bool lexicallyRejected(iora_sv p);                                   /* proved in unit assets_lexical */
 GetStaticResult Assets_getStaticEmbedded(const Assets *self, iora_sv path);      /* embedded mode: not under contract */
 const EmbeddedTemplate *Assets_findTemplate(const Assets *self, iora_sv name);     /* embedded mode: not under contract */
+
+/* loop 1 of the read loop of readFile. No variant: the number of reads is up to the file (a file being appended to, or EINTR for ever);
+ * termination is not decided. */
+#define IORA_LOOP_Assets_readFile_loop_1 IORA_LC( \
+  __CPROVER_assigns(data, G_errno, G_file_pos, G_chunk_lo, G_chunk_n, G_read_calls, G_last_read, G_eintr_seen, G_short_seen) \
+  __CPROVER_loop_invariant(data.n == G_file_pos && G_file_pos <= IORA_FILE_MAX && G_chunk_n == 0 && G_read_calls >= 0))
